@@ -420,3 +420,49 @@ def guards(model, rep, rule):
                 line=n.lineno,
                 witness='a loop with break whose tests are plain calls: the '
                 'lowered `not break_ and test` stays native')
+
+
+USER_LIST_FIELDS = {'args', 'keywords', 'elts', 'values', 'keys', 'body', 'orelse',
+                    'finalbody', 'handlers', 'targets', 'ops', 'comparators', 'items',
+                    'generators', 'decorator_list', 'names'}
+
+
+def user_order(model, rep, rule):
+  """Operands are evaluated left to right: a converter may regroup the children
+  of a user node but never reorder them.  Flags sorted / reversed / .sort /
+  .reverse applied to a list field of a handler's node parameter (directly or
+  through a local that names it)."""
+  n = 0
+  for m in model.modules.values():
+    if not m.rel.startswith('malt/converters/'):
+      continue
+    for fi in m.all_functions():
+      ps = set(fi.params())
+      for c in core.walk_no_nested(fi.node):
+        if not isinstance(c, ast.Call):
+          continue
+        arg = None
+        if isinstance(c.func, ast.Name) and c.func.id in ('sorted', 'reversed') and c.args:
+          arg = c.args[0]
+        elif isinstance(c.func, ast.Attribute) and c.func.attr in ('sort', 'reverse') \
+            and not c.args:
+          arg = c.func.value
+        if arg is None:
+          continue
+        try:
+          x = tpl.expand(fi, arg, c)
+        except Exception:
+          x = arg
+        while isinstance(x, ast.Call) and core.dotted(x.func) in ('list', 'tuple') and x.args:
+          x = x.args[0]
+        if isinstance(x, ast.Attribute) and x.attr in USER_LIST_FIELDS and isinstance(
+            x.value, ast.Name) and x.value.id in ps:
+          n += 1
+          rep.violation(rule, '%s:reorders(%s)' % (fi.site, core.norm(x)),
+                        'the children of a user node are put into another order: '
+                        'their side effects then happen in that order too (and '
+                        'positional arguments change places)',
+                        {'call': core.norm(c)[:80]}, line=c.lineno,
+                        witness='f(*xs, last): a plain argument after a starred one')
+  rep.hold(rule, 'malt/converters:no-reordering-of-user-children', {'violations': n},
+           nontrivial=False) if n == 0 else None
